@@ -29,9 +29,11 @@ class Ctx:
         self._tag = "%s_%d" % (pid, os.getpid())
         self._batch = 0
 
+    escalation = 1       # > 1 when a source file inside the property's cone differs from source_pins.json (set by check.py)
     def scale(self, quick, thorough):
         if self.n_override: return self.n_override
-        return quick if self.tier == "quick" else thorough
+        if self.tier != "quick": return thorough
+        return min(max(thorough, quick), quick * self.escalation)
 
     def distinct_nontrivial(self): return len(self._distinct)
 
@@ -1851,7 +1853,7 @@ class C04(Prop):
             "analyses; correspondence one-sided; oracle = FIFO-under-supply (event source) and a ROS 2 executor simulation (timers first, ready "
             "set refreshed only when empty, non-preemptive) under the worst-case and random budget placements with synchronous and shifted "
             "releases; non-trivial = distinct query whose result is not Ok(0)")
-    proof_status = "partial: event source proved sound (C04_event_source_sound); timer / polling-point / chain: characterisation (C07) and oracle only"
+    proof_status = "full for the abstract dispatcher class: event source, timer, polling-point callback and processing chain proved sound under every budget placement (Props/C04.v); membership of the real executor in the class is modelled, not verified"
     def run(self, ctx):
         rng = ctx.rng
         cases = []
